@@ -251,6 +251,25 @@ def _run(ctx, st):
             out = classify(m, st, ctx, "mutant")
             if i % 400 == 0:
                 ctx.sample({"valid": text[:120], "mutant": m[:120], "outcome": out})
+    # (5a) characters that are not text for every codec: lone surrogates, non-characters, in
+    # short and in long inputs, before / after / inside the place where lexing fails
+    odd = ["\ud83d", "\udc00", "\ud800\ud800", "\ufffe", "\uffff", "\U0010ffff", "\x7f", "\x85", "\u2028"]
+    tails = ["", " and price gt 0" * 6, " or name eq 'x'" * 30]
+    heads = ["name eq \"a", "name eq 'a", "a eq 1 and # ", "a eq ", "contains(s, '", "my.f(k=", "", "x/any(y: y eq "]
+    j = 0
+    for h in heads:
+        for o in odd:
+            for tl in tails:
+                for text in (h + o + tl, h + o + "\"" + tl, h + "x" + tl + o):
+                    j += 1
+                    if ctx.mine(j):
+                        classify(text, st, ctx, "odd-codepoints")
+    # (5b) constructs of the OData ABNF the library does not implement
+    from .c20 import ABNF_UNSUPPORTED
+    for k, text in enumerate(ABNF_UNSUPPORTED):
+        if ctx.mine(k):
+            for v in (text, "not (" + text + ")", "a eq 1 and " + text, text + " or b"):
+                classify(v, st, ctx, "abnf-unsupported")
     # (5) non-ASCII characters that case-insensitive matching relates to keyword letters ------
     j = 0
     for base in _FOLD_TEXTS:
